@@ -175,6 +175,9 @@ func (p *ClusterProp) Run(seed uint64, tier string, tr *core.Trace) (out *RunOut
 					vs[i].Step = idx
 				}
 				out.Violations = append(out.Violations, vs...)
+				if len(vs) == 0 {
+					out.Foreign = append(out.Foreign, "application died (C18): "+clipS(strings.Join(e.Deaths, "; "), 160))
+				}
 			} else {
 				out.Foreign = append(out.Foreign, "application died (C18): "+clipS(strings.Join(e.Deaths, "; "), 160))
 			}
@@ -366,6 +369,26 @@ func (o *TranscriptOracle) Check(e *core.Engine) []core.Violation {
 		}
 	}
 	return vs
+}
+
+// ReplicaDeath judges application deaths for the oracles that compare replicas: a replica whose application
+// panicked out or shut itself down while the reference replica, fed the same calls, is alive has not produced the
+// reference's results (a death of the reference itself, or of everybody, is C18's subject and left to it).
+func ReplicaDeath(prop, oracle string, e *core.Engine, st *core.Step, deaths []string) []core.Violation {
+	refDead := false
+	var others []string
+	for _, d := range deaths {
+		if strings.HasPrefix(d, "r0:") {
+			refDead = true
+		} else {
+			others = append(others, d)
+		}
+	}
+	if refDead || len(others) == 0 {
+		return nil
+	}
+	return []core.Violation{{Property: prop, Oracle: oracle, Sig: "replica-died",
+		Msg: fmt.Sprintf("the application of a replica died while the reference replica, fed the same blocks, lives: %s", clipS(strings.Join(others, "; "), 400))}}
 }
 
 // DumpDiffNote adds the differing keys of two replicas to a message (diagnosis only).
